@@ -47,10 +47,12 @@ Report ==
   /\ Rep("StartOnce", StartOnce(D, O, RerunSeen))
   /\ Rep("WithinLimit", WithinLimit(D, O))
   /\ Rep("OnePerIndex", OnePerIndex(D, O, RerunSeen))
+  /\ Rep("ItemsTaskCompletes", ItemsTaskCompletes(D, O))
   /\ Rep("CompleteAfterAll", CompleteAfterAll(D, O))
   /\ Rep("WithItemsFinalState", WithItemsFinalState(D, O))
   /\ Rep("NoNewTasksWhilePaused", NoNewTasksWhilePaused(P, O))
   /\ Rep("NoNewTasksAfterStop", NoNewTasksAfterStop(P, O, Ev))
+  /\ Rep("WaitingStaysAfterStop", WaitingStaysAfterStop(P, O, Ev))
   /\ Rep("PauseAck", PauseAck(P, O, Ev, Ev.target))
   /\ Rep("StopAck", StopAck(P, O, Ev, Ev.target, Ev.arg))
   /\ Rep("TreeCancelled", TreeCancelled(O))
@@ -59,12 +61,14 @@ Report ==
   /\ (l = Len(Steps) /\ R.meta.policies) =>
         /\ Rep("StopAtFirstSuccess", StopAtFirstSuccess(D, Steps, l))
         /\ Rep("FinalIffLast", FinalIffLast(D, Steps, l, RerunSeen, OpSeen))
+        /\ Rep("RetryStopsWhenTold", RetryStopsWhenTold(D, Steps, l, RerunSeen, OpSeen))
+        /\ Rep("RetryExhausted", RetryExhausted(D, Steps, l, RerunSeen, OpSeen))
         /\ Rep("DelayRespected", DelayRespected(D, Steps, l))
         /\ Rep("WaitBeforeRespected", WaitBeforeRespected(D, Steps, l))
         /\ Rep("PauseBeforeRespected", PauseBeforeRespected(D, Steps, l))
         /\ Rep("WaitAfterRespected", WaitAfterRespected(D, Steps, l))
         /\ Rep("TimeoutJudged", TimeoutJudged(D, Steps, l, OpSeen))
-  /\ Rep("ExpiredFailed", ExpiredFailed(P, O, Ev, R.meta.hbThreshold))
+  /\ Rep("ExpiredFailed", ExpiredFailed(P, O, Ev, R.meta.hbThreshold, R.meta.hbBatch))
   /\ Rep("NeverExpireFresh", NeverExpireFresh(P, O, Ev, R.meta.hbThreshold))
   /\ Rep("NoStuckTaskAtRest", NoStuckTaskAtRest(O))
   /\ Rep("RerunRestores", RerunRestores(P, O, Ev))
